@@ -23,10 +23,10 @@ func init() {
 		RunsThorough: 300000,
 		Real:         []string{"provider/auth manager (Save, Del, Flush, dirty lists, table lock)", "provider/route routetable (Save, Del, Flush)", "JSON providers + utils.EncodeJSONFile on the simulated disk"},
 		Stub:         []string{"disk = simfs (in-memory; every file-system operation is a schedule point here)", "the API handlers are bypassed: an editor task calls the managers directly, a second task flushes the way the periodic job and Service.Close do"},
-		Rule: "one run = an editor task performing 2-7 saves/deletes of users and routes while a flusher task calls auth.Flush and route.Flush 1-4 times, every manager call and every file-system operation a schedule point; " +
-			"afterwards both tables are flushed once more with nothing else running, the server is restarted and must load exactly the tables that were in memory. distinct = decision-sequence hash; non-trivial = at least one pre-emption",
+		Rule: "one run = one or two editor tasks (two administrators at once) performing 2-7 saves/deletes of users and routes while a flusher task calls auth.Flush and route.Flush 1-4 times, every manager call and every file-system operation a schedule point; " +
+			"afterwards every key is listed at most once and is present/absent (routes: with the URL) as the last operations of the editors on it require; then both tables are flushed once more with nothing else running, the server is restarted and must load exactly the tables that were in memory. distinct = decision-sequence hash; non-trivial = at least one pre-emption",
 		Assumptions:    []string{"no disk faults in this family (crash points and I/O errors are enumerated by C18/persist)"},
-		RequiredProbes: []string{"c18c.edit-during-flush", "c18c.restart-checked"},
+		RequiredProbes: []string{"c18c.edit-during-flush", "c18c.restart-checked", "c18c.two-editors"},
 	})
 }
 
@@ -50,26 +50,52 @@ func buildC18Conc(tier string) sim.Scenario {
 		nFlush := 1 + tp.Choose(4)
 		flushing := 0
 		var wg sync.WaitGroup
-		wg.Add(2)
-		w.Go("editor", func() {
-			defer wg.Done()
-			for i := 0; i < nEdits; i++ {
-				if flushing > 0 {
-					w.Probe("c18c.edit-during-flush")
-				}
-				switch tp.Choose(4) {
-				case 0:
-					auth.Save(&auth.User{Name: names[tp.Choose(3)], Password: fmt.Sprintf("pw%d", i), PullAccess: []string{"/a", "/live/*", ""}[tp.Choose(3)]}, tp.Bool())
-				case 1:
-					auth.Del(names[tp.Choose(3)])
-				case 2:
-					route.Save(&route.Route{Pattern: patterns[tp.Choose(3)], URL: fmt.Sprintf("rtsp://10.0.0.%d/s", i+2), KeepAlive: tp.Bool()})
-				default:
-					route.Del(patterns[tp.Choose(3)])
-				}
-				w.Y("editor.next")
+		nEditors := 1 + tp.Choose(2) // two administrators editing at once: their calls interleave inside the managers
+		wg.Add(1 + nEditors)
+		// what each editor did last to each key ("U:"+name / "R:"+pattern): with that, whatever the interleaving, the
+		// table after all edits is known for every key whose last operations agree
+		type lastOp struct {
+			save bool
+			url  string
+		}
+		last := make([]map[string]lastOp, nEditors)
+		for e := 0; e < nEditors; e++ {
+			e := e
+			last[e] = map[string]lastOp{}
+			n := nEdits
+			if e > 0 {
+				n = 1 + tp.Choose(4)
+				w.Probe("c18c.two-editors")
 			}
-		})
+			w.Go(fmt.Sprintf("editor%d", e), func() {
+				defer wg.Done()
+				for i := 0; i < n; i++ {
+					if flushing > 0 {
+						w.Probe("c18c.edit-during-flush")
+					}
+					switch tp.Choose(4) {
+					case 0:
+						nm := names[tp.Choose(3)]
+						auth.Save(&auth.User{Name: nm, Password: fmt.Sprintf("pw%d-%d", e, i), PullAccess: []string{"/a", "/live/*", ""}[tp.Choose(3)]}, tp.Bool())
+						last[e]["U:"+nm] = lastOp{save: true}
+					case 1:
+						nm := names[tp.Choose(3)]
+						auth.Del(nm)
+						last[e]["U:"+nm] = lastOp{}
+					case 2:
+						pt := patterns[tp.Choose(3)]
+						url := fmt.Sprintf("rtsp://10.0.%d.%d/s", e, i+2)
+						route.Save(&route.Route{Pattern: pt, URL: url, KeepAlive: tp.Bool()})
+						last[e]["R:"+pt] = lastOp{save: true, url: url}
+					default:
+						pt := patterns[tp.Choose(3)]
+						route.Del(pt)
+						last[e]["R:"+pt] = lastOp{}
+					}
+					w.Y("editor.next")
+				}
+			})
+		}
 		w.Go("flusher", func() {
 			defer wg.Done()
 			for i := 0; i < nFlush; i++ {
@@ -88,6 +114,60 @@ func buildC18Conc(tier string) sim.Scenario {
 			return
 		}
 		simfs.Yield = nil
+		// the tables in memory after all edits: every key at most once, and for each key the outcome that every order of the
+		// editors' calls gives (the last operations on it agree), or one of the two possible ones
+		if _, err := c18ActualUsers(); err != nil {
+			w.Fail("C18/table-corrupt", "after %d editors' concurrent edits: %v", nEditors, err)
+			return
+		}
+		if _, err := c18ActualRoutes(); err != nil {
+			w.Fail("C18/table-corrupt", "after %d editors' concurrent edits: %v", nEditors, err)
+			return
+		}
+		initial := map[string]bool{"U:root": true, "U:alice": true, "R:/cam/1": true}
+		keys := []string{}
+		for _, n := range names {
+			keys = append(keys, "U:"+n)
+		}
+		for _, p := range patterns {
+			keys = append(keys, "R:"+p)
+		}
+		for _, k := range keys {
+			mayExist, mayBeGone, touched := false, false, false
+			urls := map[string]bool{}
+			for e := 0; e < nEditors; e++ {
+				if op, ok := last[e][k]; ok {
+					touched = true
+					if op.save {
+						mayExist = true
+						urls[op.url] = true
+					} else {
+						mayBeGone = true
+					}
+				}
+			}
+			if !touched {
+				mayExist, mayBeGone = initial[k], !initial[k]
+			}
+			exists, url := false, ""
+			if k[0] == 'U' {
+				exists = auth.Get(k[2:]) != nil
+			} else if r := route.Get(k[2:]); r != nil {
+				exists, url = true, r.URL
+			}
+			if exists && !mayExist {
+				w.Fail("C18/table-mismatch", "%s exists although the last operation of every editor that touched it was a delete", k)
+				return
+			}
+			if !exists && !mayBeGone {
+				w.Fail("C18/table-mismatch", "%s is missing although the last operation of every editor that touched it was a save", k)
+				return
+			}
+			if exists && touched && k[0] == 'R' && !urls[url] {
+				w.Fail("C18/table-mismatch", "route %s has URL %q, which is not what the last save of any editor wrote (%v)", k[2:], url, urls)
+				return
+			}
+		}
 		if eu, er := auth.Flush(), route.Flush(); eu != nil || er != nil {
 			w.Fail("C18/flush-error", "final flush failed: %v %v", eu, er)
 			return
